@@ -1581,16 +1581,16 @@ def run(ctx: Ctx) -> None:
     consts = [-2, 0, 1, 3]
     if ctx.quick:
         # depth <= 2 over 2 symbols and 4 constants is ~250k trees; the quick tier enumerates all trees of
-        # depth <= 1 and a seed-dependent 1/96 slice of depth 2, the thorough tier all of them
+        # depth <= 1 and a seed-dependent 1/128 slice of depth 2, the thorough tier all of them
         trees = all_trees(2, ["N", "M"], consts)
         d1 = [t for t in trees if tree_depth(t) <= 1]
         d2 = [t for t in trees if tree_depth(t) == 2]
-        off = ctx.seed % 96
-        sl = d2[off::96]
+        off = ctx.seed % 128
+        sl = d2[off::128]
         ex = d1 + sl
         ctx.exhaustive_scopes.append(
             f"all {len(d1)} trees of depth <= 1 over symbols N, M and constants -2, 0, 1, 3 (+ - * / // % max min, neg floor ceil trunc), "
-            f"all 16 bindings N, M in 1..4; plus slice {off}/96 ({len(sl)} of {len(d2)}) of the depth-2 trees"
+            f"all 16 bindings N, M in 1..4; plus slice {off}/128 ({len(sl)} of {len(d2)}) of the depth-2 trees"
         )
     else:
         ex = all_trees(2, ["N", "M"], consts)
@@ -1601,7 +1601,7 @@ def run(ctx: Ctx) -> None:
     for t in ex:
         tree_items.append(dict(tree=t, envs=envs16, splits=[({"N": 2}, {"M": 3})], simplify=False, shape=False, src="exhaustive", light=True))
     # ---- random deep trees
-    for i in range(ctx.pick(400, 4000)):
+    for i in range(ctx.pick(300, 4000)):
         depth = rng.choice([2, 3, 3, 4, 4, 5, 6])
         nsyms = rng.choice([1, 2, 2, 3, 4])
         t = gen_tree(rng, depth, nsyms, [-7, -3, -2, -1, 0, 1, 2, 3, 4, 6, 12])
@@ -1613,14 +1613,14 @@ def run(ctx: Ctx) -> None:
     for s in FIXED_MALFORMED:
         str_items.append(dict(s=s, envs=_string_envs(rng, s), src="fixed"))
     deriv_items = []
-    for i in range(ctx.pick(2500, 30000)):
+    for i in range(ctx.pick(2000, 30000)):
         d = gen_deriv(rng, rng.choice([1, 2, 2, 3, 4]))
         toks = flatten_deriv(d)
         s = render_tokens(rng, toks, rng.choice([0, 1, 2]))
         envs = _string_envs(rng, s)
         str_items.append(dict(s=s, envs=envs, src="grammar"))
         deriv_items.append(dict(d=d, envs=envs, src="derivation"))
-    for i in range(ctx.pick(2500, 30000)):
+    for i in range(ctx.pick(2000, 30000)):
         s = gen_malformed(rng, rng.choice([0, 1, 2, 3]))
         str_items.append(dict(s=s, envs=_string_envs(rng, s), src="malformed"))
     ctx.count("corpus_cases", ncorpus)
